@@ -423,4 +423,228 @@ theorem radicalsOf_render (roles : List (List Str)) (idx : List Nat) (gs : List 
         (by simp only [List.length_append, List.length_cons]; omega)
       simpa using this
 
+/-! ## the whole round trip incl. radical marks -/
+
+theorem foldl_molStep_radicals (rad : List Str → List Bool) (ms : List (List Str)) :
+    ∀ acc : FmtAcc, ((ms.map (sigOf rad)).foldl molStep acc).radicals = acc.radicals ++ (ms.map rad).flatten := by
+  induction ms with
+  | nil => intro acc; simp
+  | cons m rest ih =>
+    intro acc
+    simp only [List.map_cons, List.foldl_cons, List.flatten_cons]
+    rw [ih]
+    unfold molStep sigOf
+    by_cases hk : m.length > 1
+    · simp only [hk, if_true, List.append_assoc]
+    · simp only [hk, if_false, List.append_assoc]
+
+theorem formatCore_radicalIdx (rad : List Str → List Bool) (R A P : List (List Str)) :
+    (formatCore true (R.map (sigOf rad)) (A.map (sigOf rad)) (P.map (sigOf rad))).radicalIdx
+      = trueIdx ((R ++ A ++ P).map rad).flatten := by
+  unfold formatCore sortRole trueIdx
+  simp only [if_true, ← List.map_append]
+  rw [foldl_molStep_radicals]
+  rfl
+
+theorem readSmi_eq (smi : Str) (c : Option (List (List Nat))) :
+    readSmi smi c = (match readSmiRaw smi c with | .roles r a p => mkRxn r a p | o => o) := by
+  unfold readSmi readSmiRaw
+  by_cases hgt : (!smi.contains chGt) = true
+  · simp only [hgt, if_true]
+  · simp only [hgt]
+    cases splitOn chGt smi with
+    | nil => rfl
+    | cons r t =>
+      cases t with
+      | nil => rfl
+      | cons a t =>
+        cases t with
+        | nil => rfl
+        | cons p t =>
+          cases t with
+          | cons _ _ => rfl
+          | nil =>
+            simp only [Bool.false_eq_true, if_false]
+            cases c with
+            | none => rfl
+            | some gs =>
+              cases gs with
+              | nil => rfl
+              | cons g gs =>
+                simp only
+                cases contractRoles (rolePieces r) (rolePieces a) (rolePieces p) (g :: gs) with
+                | error e => rfl
+                | ok v => rfl
+
+theorem readSmiRaw_of_readSmi (smi : Str) (c : Option (List (List Nat))) (x y z : List Str)
+    (h : readSmi smi c = .roles x y z) :
+    readSmiRaw smi c = .roles x y z ∧ ¬ ((x.isEmpty && y.isEmpty && z.isEmpty) = true) := by
+  rw [readSmi_eq] at h
+  cases hr : readSmiRaw smi c with
+  | molecule => rw [hr] at h; cases h
+  | error e => rw [hr] at h; cases h
+  | roles r a p =>
+    rw [hr] at h
+    simp only at h
+    unfold mkRxn at h
+    split at h
+    · cases h
+    · rename_i hne
+      cases h
+      exact ⟨rfl, hne⟩
+
+theorem readRxnRad_of_readRxn (natoms : Str → Nat) (text : Str) (x y z : List Str) (fl : List (List Bool))
+    (hr : readRxn text = .roles x y z)
+    (hm : markRadicals ((x ++ y ++ z).map natoms) (radicalsOf (splitWs text)) = .ok fl) :
+    readRxnRad natoms text =
+      .roles x y z (fl.take x.length) ((fl.drop x.length).take y.length) (fl.drop (x.length + y.length)) := by
+  unfold readRxn at hr
+  unfold readRxnRad
+  cases hs : splitWs text with
+  | nil => rw [hs] at hr; cases hr
+  | cons smi rest =>
+    rw [hs] at hr hm
+    simp only at hr ⊢
+    obtain ⟨h1, h2⟩ := readSmiRaw_of_readSmi _ _ _ _ _ hr
+    rw [h1]
+    simp only [hm]
+    rw [if_neg h2]
+
+theorem take_drop3 {α : Type} (a b c : List α) :
+    (a ++ b ++ c).take a.length = a ∧ ((a ++ b ++ c).drop a.length).take b.length = b ∧
+      (a ++ b ++ c).drop (a.length + b.length) = c := by
+  refine ⟨?_, ?_, ?_⟩
+  · rw [List.append_assoc, List.take_left']; rfl
+  · rw [List.append_assoc, List.drop_left', List.take_left'] <;> rfl
+  · rw [← List.length_append, List.drop_left']; rfl
+
+/-- **write → read incl. radical marks** (text level, `!c`): the roles, the molecules and the `is_radical` flag of every
+    atom are restored. `natoms` (atom count of the parsed molecule string) agrees with the number of flags the writer
+    had for the molecule (the parser yields the atoms of the written string, in the written order: C02/C03). -/
+theorem read_format_rad (rad : List Str → List Bool) (natoms : Str → Nat) (R A P : List (List Str))
+    (hR : WrittenOK R) (hA : WrittenOK A) (hP : WrittenOK P) (hne : R ++ A ++ P ≠ [])
+    (hsp : ∀ m ∈ R ++ A ++ P, ∀ f ∈ m, ∀ c ∈ f, isSpace c = false)
+    (hn : ∀ m ∈ R ++ A ++ P, natoms (join chDot m) = (rad m).length) :
+    readRxnRad natoms (formatRxn true false (R.map (sigOf rad)) (A.map (sigOf rad)) (P.map (sigOf rad))) =
+      .roles (R.map (join chDot)) (A.map (join chDot)) (P.map (join chDot)) (R.map rad) (A.map rad) (P.map rad) := by
+  have hread := read_format rad R A P hR hA hP hne hsp
+  have hc := formatCore_contract rad R A P
+  have hr := formatCore_roles rad R A P
+  have hi := formatCore_radicalIdx rad R A P
+  -- the radical indices read from the text
+  have hrad : radicalsOf (splitWs (formatRxn true false (R.map (sigOf rad)) (A.map (sigOf rad)) (P.map (sigOf rad)))) =
+      trueIdx ((R ++ A ++ P).map rad).flatten := by
+    unfold formatRxn
+    have eta : formatCore true (R.map (sigOf rad)) (A.map (sigOf rad)) (P.map (sigOf rad)) =
+        ⟨[R.map (join chDot), A.map (join chDot), P.map (join chDot)], trueIdx ((R ++ A ++ P).map rad).flatten,
+         groupsFrom 0 (R ++ A ++ P)⟩ := by
+      rw [← hc, ← hr, ← hi]
+    rw [eta]
+    have roleChars : ∀ X : List (List Str), (∀ m ∈ X, m ∈ R ++ A ++ P) →
+        ∀ c ∈ join chDot (X.map (join chDot)), isSpace c = false := by
+      intro X hX c hc'
+      rcases mem_join chDot _ c hc' with h | ⟨p, hp, hcp⟩
+      · subst h; decide
+      · obtain ⟨m, hm, e⟩ := List.mem_map.mp hp
+        subst e
+        rcases mem_join chDot m c hcp with h | ⟨f, hf, hcf⟩
+        · subst h; decide
+        · exact hsp m (hX m hm) f hf c hcf
+    have hsig : ∀ c ∈ join chGt ([R.map (join chDot), A.map (join chDot), P.map (join chDot)].map (join chDot)),
+        isSpace c = false := by
+      intro c hc'
+      rcases mem_join chGt _ c hc' with h | ⟨p, hp, hcp⟩
+      · subst h; decide
+      · simp only [List.map_cons, List.map_nil, List.mem_cons, List.mem_nil_iff, or_false] at hp
+        rcases hp with h | h | h
+        · subst h; exact roleChars R (fun m hm => by simp [hm]) c hcp
+        · subst h; exact roleChars A (fun m hm => by simp [hm]) c hcp
+        · subst h; exact roleChars P (fun m hm => by simp [hm]) c hcp
+    have hsne : join chGt ([R.map (join chDot), A.map (join chDot), P.map (join chDot)].map (join chDot)) ≠ [] := by
+      simp [join]
+    exact radicalsOf_render _ _ _ hsig hsne (trueIdx_nodup _)
+  have hcounts : (R.map (join chDot) ++ A.map (join chDot) ++ P.map (join chDot)).map natoms =
+      ((R ++ A ++ P).map rad).map List.length := by
+    rw [← List.map_append, ← List.map_append, List.map_map, List.map_map]
+    apply List.map_congr_left
+    intro m hm
+    exact hn m hm
+  have hm : markRadicals ((R.map (join chDot) ++ A.map (join chDot) ++ P.map (join chDot)).map natoms)
+      (radicalsOf (splitWs (formatRxn true false (R.map (sigOf rad)) (A.map (sigOf rad)) (P.map (sigOf rad))))) =
+      .ok ((R ++ A ++ P).map rad) := by
+    rw [hrad, hcounts]
+    exact markRadicals_trueIdx _
+  rw [readRxnRad_of_readRxn natoms _ _ _ _ _ hread hm]
+  have t := take_drop3 (R.map rad) (A.map rad) (P.map rad)
+  simp only [List.length_map] at t ⊢
+  rw [List.map_append, List.map_append, t.1, t.2.1, t.2.2]
+
+/-- the default (sorted) signature: molecules and radical marks of every role are restored, in the canonical order -/
+theorem read_format_rad_sorted (rad : List Str → List Bool) (natoms : Str → Nat) (R A P : List (List Str))
+    (hR : WrittenOK R) (hA : WrittenOK A) (hP : WrittenOK P) (hne : R ++ A ++ P ≠ [])
+    (hsp : ∀ m ∈ R ++ A ++ P, ∀ f ∈ m, ∀ c ∈ f, isSpace c = false)
+    (hn : ∀ m ∈ R ++ A ++ P, natoms (join chDot m) = (rad m).length) :
+    ∃ R' A' P' : List (List Str), R'.Perm R ∧ A'.Perm A ∧ P'.Perm P ∧
+      readRxnRad natoms (formatRxn false false (R.map (sigOf rad)) (A.map (sigOf rad)) (P.map (sigOf rad))) =
+        .roles (R'.map (join chDot)) (A'.map (join chDot)) (P'.map (join chDot))
+          (R'.map rad) (A'.map rad) (P'.map rad) := by
+  obtain ⟨R', pR, eR⟩ := perm_map_inv (sigOf rad) (sortRole false (R.map (sigOf rad))) R
+    (by unfold sortRole; simp only [Bool.false_eq_true, if_false]; exact List.mergeSort_perm _ _)
+  obtain ⟨A', pA, eA⟩ := perm_map_inv (sigOf rad) (sortRole false (A.map (sigOf rad))) A
+    (by unfold sortRole; simp only [Bool.false_eq_true, if_false]; exact List.mergeSort_perm _ _)
+  obtain ⟨P', pP, eP⟩ := perm_map_inv (sigOf rad) (sortRole false (P.map (sigOf rad))) P
+    (by unfold sortRole; simp only [Bool.false_eq_true, if_false]; exact List.mergeSort_perm _ _)
+  refine ⟨R', A', P', pR, pA, pP, ?_⟩
+  have hsort : formatRxn false false (R.map (sigOf rad)) (A.map (sigOf rad)) (P.map (sigOf rad)) =
+      formatRxn true false (R'.map (sigOf rad)) (A'.map (sigOf rad)) (P'.map (sigOf rad)) := by
+    rw [eR, eA, eP]; rfl
+  rw [hsort]
+  have wok : ∀ X X' : List (List Str), X'.Perm X → WrittenOK X → WrittenOK X' :=
+    fun X X' p h m hm => h m (p.subset hm)
+  have sub : ∀ m ∈ R' ++ A' ++ P', m ∈ R ++ A ++ P := by
+    intro m hm
+    simp only [List.mem_append] at hm ⊢
+    rcases hm with (h | h) | h
+    · exact Or.inl (Or.inl (pR.subset h))
+    · exact Or.inl (Or.inr (pA.subset h))
+    · exact Or.inr (pP.subset h)
+  apply read_format_rad rad natoms R' A' P' (wok R R' pR hR) (wok A A' pA hA) (wok P P' pP hP)
+  · intro h
+    apply hne
+    have h1 := List.append_eq_nil_iff.mp h
+    have h2 := List.append_eq_nil_iff.mp h1.1
+    have r0 : R = [] := List.Perm.eq_nil (by have := pR.symm; rwa [h2.1] at this)
+    have a0 : A = [] := List.Perm.eq_nil (by have := pA.symm; rwa [h2.2] at this)
+    have p0 : P = [] := List.Perm.eq_nil (by have := pP.symm; rwa [h1.2] at this)
+    rw [r0, a0, p0]
+    rfl
+  · intro m hm; exact hsp m (sub m hm)
+  · intro m hm; exact hn m (sub m hm)
+
+/-- general reader-side specification: an index outside the parsed atoms is `IncorrectSmiles`, otherwise the flag of the
+    `i`-th atom (counted over all molecules in order) is `i ∈ radicals`, and every molecule keeps its atom count -/
+theorem markRadicals_spec (counts rad : List Nat) :
+    ((∃ x ∈ rad, counts.sum ≤ x) → markRadicals counts rad = .error "IncorrectSmiles") ∧
+    ((∀ x ∈ rad, x < counts.sum) → ∃ F, markRadicals counts rad = .ok F ∧ F.map List.length = counts ∧
+        ∀ i (hi : i < F.flatten.length), F.flatten[i] = rad.contains i) := by
+  constructor
+  · rintro ⟨x, hx, hle⟩
+    unfold markRadicals
+    have : rad.any (fun x => decide (counts.sum ≤ x)) = true := by
+      rw [List.any_eq_true]; exact ⟨x, hx, by simpa using hle⟩
+    rw [this]; rfl
+  · intro h
+    unfold markRadicals
+    have : rad.any (fun x => decide (counts.sum ≤ x)) = false := by
+      rw [List.any_eq_false]
+      intro x hx
+      have := h x hx
+      simp only [decide_eq_true_eq, Nat.not_le]; omega
+    rw [this]
+    obtain ⟨s1, s2⟩ := splitFlags_shape rad counts 0
+    refine ⟨_, rfl, s1, ?_⟩
+    intro i hi
+    have := s2 i hi
+    simpa using this
+
 end ChythonModel.Proofs.C15
